@@ -543,4 +543,136 @@ theorem parse_char_two (t w1 w2 A w3 w4 B w5 tail : Str) (len kind : Option Str)
     rw [e]
     exact splitComma_two A B (fun c hc => argCh_comma (hA c hc)) (fun c hc => argCh_comma (hB c hc))
 
+
+/-! ## `double precision` / `double complex` with any blanks between the words -/
+
+theorem kw2CI_of_lower (k1 k2 t1 ws t2 r : Str) (h1 : lower t1 = k1) (h2 : lower t2 = k2)
+    (hws : isBlank ws = true) (hne : t2 ≠ []) (ha : ∀ c ∈ t2, isSpace c = false) :
+    kw2CI k1 k2 (t1 ++ (ws ++ (t2 ++ r))) = some r := by
+  unfold kw2CI
+  rw [kwCI_of_lower _ t1 _ h1]
+  simp only
+  rw [skipWs_blank_append _ _ hws]
+  cases t2 with
+  | nil => exact absurd rfl hne
+  | cons c cs =>
+    rw [List.cons_append, skipWs_of_head _ _ (ha c (by simp)), ← List.cons_append]
+    exact kwCI_of_lower _ _ _ h2
+
+/-- the two-word types: which word follows `double` -/
+inductive DblT where
+  | precision | complex
+  deriving DecidableEq, Repr
+
+def DblT.second : DblT → Str
+  | .precision => (chars! "precision") | .complex => (chars! "complex")
+def DblT.norm : DblT → Str
+  | .precision => (chars! "double precision") | .complex => (chars! "double complex")
+
+theorem dbl_second_alpha (d : DblT) : ∀ c ∈ d.second, isAlpha c = true := by cases d <;> decide
+theorem dbl_first_alpha : ∀ c ∈ (chars! "double"), isAlpha c = true := by decide
+
+theorem varTypeRest_dbl (d : DblT) (t1 ws t2 r : Str) (h1 : lower t1 = (chars! "double"))
+    (h2 : lower t2 = d.second) (hws : isBlank ws = true) :
+    varTypeRest (t1 ++ (ws ++ (t2 ++ r))) = some r := by
+  have h2a := kw_alpha t2 _ h2 (dbl_second_alpha d)
+  have hne : t2 ≠ [] := by
+    intro e; subst e; cases d <;> simp [lower, DblT.second] at h2
+  have hd : ∀ kw, diverge kw (chars! "double") = true → kwCI kw (t1 ++ (ws ++ (t2 ++ r))) = none :=
+    fun kw h => kwCI_diverge kw t1 _ (by rw [h1]; exact h)
+  cases d
+  · have hp := kw2CI_of_lower _ _ t1 ws t2 r h1 h2 hws hne (fun c hc => alpha_space (h2a c hc))
+    simp only [DblT.second] at hp
+    simp only [varTypeRest, firstSome, hp, hd (chars! "integer") (by decide), hd (chars! "real") (by decide)]
+  · have hp := kw2CI_of_lower _ _ t1 ws t2 r h1 h2 hws hne (fun c hc => alpha_space (h2a c hc))
+    simp only [DblT.second] at hp h2
+    -- `double\s*precision` must fail first: after `double` and the blanks comes a word that is not `precision`
+    have hprec : kw2CI (chars! "double") (chars! "precision") (t1 ++ (ws ++ (t2 ++ r))) = none := by
+      unfold kw2CI
+      rw [kwCI_of_lower _ t1 _ h1]
+      simp only
+      rw [skipWs_blank_append _ _ hws]
+      cases t2 with
+      | nil => exact absurd rfl hne
+      | cons c cs =>
+        rw [List.cons_append, skipWs_of_head _ _ (alpha_space (h2a c (by simp))), ← List.cons_append]
+        exact kwCI_diverge _ _ _ (by rw [h2]; decide)
+    simp only [varTypeRest, firstSome, hp, hprec, hd (chars! "integer") (by decide), hd (chars! "real") (by decide),
+      hd (chars! "character") (by decide), hd (chars! "complex") (by decide)]
+
+
+theorem lowerChar_space {c : Char} (h : isSpace c = true) : lowerChar c = c := by
+  rcases space_cases h with h' | h' | h' | h' | h' | h' <;> subst h' <;> decide
+
+theorem lower_blank (w : Str) (hw : isBlank w = true) : lower w = w := by
+  induction w with
+  | nil => rfl
+  | cons c cs ih =>
+    simp [isBlank] at hw
+    simp only [lower, List.map_cons, lowerChar_space hw.1]
+    congr 1
+    exact ih (by simp [isBlank]; exact hw.2)
+
+theorem lower_append (a b : Str) : lower (a ++ b) = lower a ++ lower b := by simp [lower]
+
+theorem strip_idem' (t : Str) : strip (strip t) = strip t := by
+  simp only [strip]
+  rw [lstrip_rstrip_comm, lstrip_idem, rstrip_idem]
+
+theorem normVartype_dbl (d : DblT) (t1 ws t2 : Str) (h1 : lower t1 = (chars! "double"))
+    (h2 : lower t2 = d.second) (hws : isBlank ws = true) :
+    normVartype (t1 ++ (ws ++ t2)) = d.norm := by
+  have hl : lower (t1 ++ (ws ++ t2)) = (chars! "double") ++ (ws ++ (d.second ++ [])) := by
+    simp [lower_append, h1, h2, lower_blank ws hws]
+  unfold normVartype
+  simp only [hl]
+  cases d
+  · have := kw2CI_of_lower (chars! "double") (chars! "precision") (chars! "double") ws (chars! "precision") []
+      (by decide) (by decide) hws (by decide) (by decide)
+    simp only [DblT.second, this, Option.isSome_some, if_true, DblT.norm]
+  · have hp : kw2CI (chars! "double") (chars! "precision") ((chars! "double") ++ (ws ++ ((chars! "complex") ++ []))) = none := by
+      unfold kw2CI
+      rw [kwCI_of_lower _ (chars! "double") _ (by decide)]
+      simp only
+      rw [skipWs_blank_append _ _ hws]
+      decide
+    have := kw2CI_of_lower (chars! "double") (chars! "complex") (chars! "double") ws (chars! "complex") []
+      (by decide) (by decide) hws (by decide) (by decide)
+    simp only [DblT.second, this, hp, Option.isSome_some, Option.isSome_none, if_true, DblT.norm,
+      Bool.false_eq_true, if_false]
+
+/-- `double precision` / `double complex` followed by something `get_parens` stops at at once -/
+theorem parseType_dbl (d : DblT) (t1 ws t2 tail : Str) (h1 : lower t1 = (chars! "double"))
+    (h2 : lower t2 = d.second) (hws : isPad ws = true)
+    (htail : EndsScan (strip tail)) (htn : tail.all (fun c => c != '\n') = true) :
+    parseType (t1 ++ (ws ++ (t2 ++ tail))) = .ok { vartype := d.norm, rest := strip tail } := by
+  have h1a := kw_alpha t1 _ h1 dbl_first_alpha
+  have h2a := kw_alpha t2 _ h2 (dbl_second_alpha d)
+  have hT1 := allNotNl t1 (fun c hc => nospace_ne_nl (alpha_space (h1a c hc)))
+  have hT2 := allNotNl t2 (fun c hc => nospace_ne_nl (alpha_space (h2a c hc)))
+  have hcont : (t1 ++ (ws ++ (t2 ++ tail))).contains '\n' = false := by
+    apply contains_nl_false'
+    simp [List.all_append, hT1, hT2, isPad_nl hws, htn]
+  have hsn : starNorm (strip tail) = strip tail := by
+    rcases htail with h | ⟨c, cs, h, hs, _⟩
+    · rw [h]; rfl
+    · rw [h]
+      have : c ≠ '*' := by intro e; subst e; simp [isStop, isAlpha] at hs
+      unfold starNorm; split
+      · rename_i heq; simp at heq; exact absurd heq.1 this
+      · rfl
+  have hgp : getParens (strip tail) = .ok [] := by
+    simpa [getParens] using getParensAux_end (strip tail) [] htail
+  unfold parseType
+  simp only [hcont, Bool.false_eq_true, if_false, varTypeRest_dbl d t1 ws t2 tail h1 h2 (isPad_blank hws)]
+  have htake : (t1 ++ (ws ++ (t2 ++ tail))).take ((t1 ++ (ws ++ (t2 ++ tail))).length - tail.length)
+      = t1 ++ (ws ++ t2) := by
+    have e : (t1 ++ (ws ++ (t2 ++ tail))) = (t1 ++ (ws ++ t2)) ++ tail := by simp
+    rw [e, List.length_append, Nat.add_sub_cancel]
+    exact List.take_left'  rfl
+  simp only [htake, normVartype_dbl d t1 ws t2 h1 h2 (isPad_blank hws), hsn, hgp]
+  have hnt : (d.norm == (chars! "type") || d.norm == (chars! "class") || d.norm == (chars! "character")) = false := by
+    cases d <;> decide
+  simp [finish, hnt, startsWith, strip_idem']
+
 end Ford.TypeSpec
